@@ -264,6 +264,9 @@ def triage(pid, job, binary):
                 return viols, f"job {job.name}: {inc} of {ev} cases were inconclusive ({why})"
         return viols, None
     # non-zero exit
+    if "INCONCLUSIVE-ABORT" in out:
+        why = "; ".join(((job.frag or {}).get("inconclusive_why") or [])[:2])
+        return viols, f"job {job.name}: abandoned, most cases were inconclusive ({why})"
     if frag_viol:
         for rec in frag_viol:
             path = save_replay(pid, rec)
